@@ -5,6 +5,7 @@ from .c16 import run_impl_sharded
 
 TRUSTED = [
     'Coq 8.16.1 kernel + vm_compute (no native_compute)',
+    'the specification Lib/UFSpec.v (flat byte queue; what C15_refines refines to) is part of the statement, not of the proof: read it',
     'hand-written model Lib/UFModel.v of UncompressedFile (container list, offset arithmetic, the read/write loops) — tied to the code by this correspondence run (every accessor and the container list after every call)',
     'wait predicates and notifications of UncompressedFile: translated from the source (translator/sync2coq.py) and proved equal to the model guards in Inst/SyncEq.v',
     'extraction (ExtrOcamlBasic only) + ocaml/driver.ml; harness/uf.cpp (private state read through #define private public; calls on a helper thread under a watchdog)',
@@ -196,6 +197,7 @@ def run(v, tier, seed, replay=None):
         cases += gen_cases(rng, tier)
     lines = ['U ' + c for c in cases]
     mo = codec.run_model(mexe, lines)
+    qo = codec.run_model(mexe, ['BQ ' + c for c in cases])      # the Coq byte queue (Lib/UFSpec.v), the spec of C15_refines
     os.environ['VERIF_BLOCK_MS'] = '120'
     io = run_impl_sharded(hexe, lines)
     del os.environ['VERIF_BLOCK_MS']
@@ -208,8 +210,15 @@ def run(v, tier, seed, replay=None):
     dis = [(c, m, i) for c, m, i in zip(cases, mo, io) if m != i]
     bad = []
     in_scope = 0
-    for c, i in zip(cases, io):
+    spec_dis = []
+    for c, i, ql in zip(cases, io, qo):
         exp, scoped, why = oracle(c.split())
+        # the extracted Coq specification and the Python transcription of the property text must be the same oracle
+        qt = ql.split(' ')[1:]
+        qscoped = not (qt and qt[-1] == 'outofscope')
+        qexp = qt[:-1] if not qscoped else qt
+        if qexp != exp or qscoped != scoped:
+            spec_dis.append((c, ' '.join(qt), ' '.join(exp)))
         got = visible(i)
         in_scope += scoped
         n = len(exp)
@@ -221,6 +230,10 @@ def run(v, tier, seed, replay=None):
         key = 'oracle:' + classify(c, k)
         v.violation(key, 'UncompressedFile departs from the reference byte queue on [%s] at call %d (%s): expected %s, the library gives %s' % (c, k + 1, c.split()[k] if k < len(c.split()) else '-', e, g),
                     {'ops': c, 'call_index': k, 'expected': e, 'implementation': g, 'failing_histories': len(bad)})
+    if spec_dis:
+        c, a, b_ = min(spec_dis, key=lambda x: len(x[0]))
+        v.violation('corr:spec', 'the Coq byte queue (Lib/UFSpec.v) and the reference written from the property text disagree on %d histories; shortest [%s]: coq %s | reference %s' % (len(spec_dis), c, a[:300], b_[:300]),
+                    {'correspondence': 'UFSpec.bq_step vs vlib/props/c15.py Spec', 'ops': c, 'coq': a, 'reference': b_}, no_input=True)
     if dis and not bad:
         c, m, i = min(dis, key=lambda x: len(x[0]))
         v.violation('corr:' + c, 'model Lib/UFModel.v and implementation disagree on %d histories; shortest [%s]: model %s | implementation %s' % (len(dis), c, m[:300], i[:300]),
@@ -235,11 +248,11 @@ def run(v, tier, seed, replay=None):
         'obligations': info['obligations'], 'discharged': info['discharged'], 'checker_cmd': info['checker_cmd'],
         'trusted_base': TRUSTED + info['print_assumptions'], 'failed_obligations': info['failed'],
         'evaluations': len(cases), 'distinct_nontrivial': len(set(c for c in cases if len(c.split()) >= 4)),
-        'rule': 'histories over the alphabet of the property (w<hex> write bytes, c<hex> append a whole container, r<n> read, s<off> relative seek, n nextLogContainer, d dropOldData, F/B/C set declared end / buffer size / default container size 1..64, a abort): corpus, hand-picked corners and random histories of 3..40 calls whose chunk sizes straddle container boundaries; each ends by draining the unread bytes. Every history runs on the extracted model, on the real UncompressedFile and on a flat reference byte queue written from the property text (compared: bytes, gcount, tellg, tellp, declared end, good/eof after every call; the container list is compared between model and implementation only). Non-trivial = distinct history of at least 4 calls.',
+        'rule': 'histories over the alphabet of the property (w<hex> write bytes, c<hex> append a whole container, r<n> read, s<off> relative seek, n nextLogContainer, d dropOldData, F/B/C set declared end / buffer size / default container size 1..64, a abort): corpus, hand-picked corners and random histories of 3..40 calls whose chunk sizes straddle container boundaries; each ends by draining the unread bytes. Every history runs on the extracted model, on the real UncompressedFile, on the extracted Coq byte queue of C15_refines (Lib/UFSpec.v) and on a transcription of it in Python written from the property text (the two must agree token for token) (compared: bytes, gcount, tellg, tellp, declared end, good/eof after every call; the container list is compared between model and implementation only). Non-trivial = distinct history of at least 4 calls.',
         'histories_in_scope_of_reference': in_scope, 'histories_ending_blocked': sum(1 for i in io if 'blocked' in i),
         'length_distribution': {'min': min(lens), 'max': max(lens), 'mean': round(sum(lens) / len(lens), 1)},
         'op_distribution': {k: sum(1 for c in cases for t in c.split() if t[0] == k) for k in 'wcrsndFBCa'},
-        'correspondence_disagreements': len(dis), 'oracle_failures': len(bad),
+        'correspondence_disagreements': len(dis), 'oracle_failures': len(bad), 'spec_disagreements': len(spec_dis),
         'samples': cases[:2] + cases[-3:],
     })
     return 'proof'
